@@ -76,6 +76,18 @@ CHECKS = {
 
 NOT_YET = "check under construction in this session; not yet registered"
 
+# kernels / methods of /repo re-translated to Lean on every run (harness/extract/py2lean.py) and proved equal to the model
+SRC = {
+    "C01": "TheFittest._replace, TheFittest._update (= Rec.update)",
+    "C02": "TheFittest._update (= Rec.update; the record never decreases)",
+    "C03": "TheFittest._update (stagnation counter), _termitation_check (= Cfg.stop), get_remains_calls (= Cfg.remains)",
+    "C06": "flip_mutation, binomialGA, one_point_crossover, two_point_crossover, uniform_crossover (random draws as explicit streams)",
+    "C07": "bounds_control (coordinate-wise clamp), binomial",
+    "C09": "find_end_subtree_from_i, find_id_args_from_i, find_first_difference_between_two, common_region_two_trees (equal to the model on every well-formed tree, with no out-of-range access)",
+    "C11": "binary_search_interval, check_for_value, argsort_k, tournament_selection, sattolo_shuffle, random_sample, random_weighted_sample",
+    "C16": "EvolutionaryAlgorithm._get_n_jobs (= normJobs)",
+}
+
 
 def main():
     checks, na = [], []
@@ -83,6 +95,11 @@ def main():
         pid = p["id"]
         if pid in CHECKS:
             cat, text, ref, tech, extra = CHECKS[pid]
+            if pid in SRC:
+                text += (" Source tie: on every run " + SRC[pid] + " are translated from the current source into Lean and the theorems "
+                         + pid + "_src_* prove the translation equal to the model (DESIGN §4.4).")
+                tech += " + source translation with equivalence theorems"
+                extra = (extra + "; " if extra else "") + "the translator's reading of the Python subset is trusted for the _src_ theorems"
             checks.append({
                 "property_id": pid,
                 "quick_cmd": f"./check {pid} --tier quick",
@@ -113,7 +130,7 @@ def main():
         }],
         "checks": checks,
         "not_applicable": na,
-        "notes": "Every check: lake build of the property's modules, forbidden-token grep, #print axioms audit, model-vs-implementation correspondence, property oracle on the implementation's own outputs. Verdict protocol in DESIGN.md §2.1.",
+        "notes": "Every check: (re-translation of the listed kernels from the current source where the property has a source tie,) lake build of the property's modules, forbidden-token grep, #print axioms audit, model-vs-implementation correspondence, property oracle on the implementation's own outputs. Verdict protocol in DESIGN.md §2.1.",
     }
     (V / "MANIFEST.json").write_text(json.dumps(m, indent=1, ensure_ascii=False) + "\n")
     print("checks:", [c["property_id"] for c in checks], "not_applicable:", len(na))
